@@ -47,12 +47,15 @@ BASES = [
     {'topo': 'fanin', 'wiring': 'prom1', 'hier': 'nest2', 'units': 'km_m'},
     {'topo': 'two', 'wiring': 'conn_2d_row', 'units': 'm_cm', 'hier': 'nest1'},
     {'topo': 'two', 'wiring': 'prom2', 'units': 'degF_degK', 'hier': 'allG'},
+    {'topo': 'two', 'wiring': 'scalar0d', 'units': 'm_cm'},       # 0-d source and input
 ]
 
 COMPAT = {'m': 'cm', 'cm': 'm', 'km': 'm', 'degC': 'degF', 'degF': 'degC', 'degK': 'degC'}
 
 
 def _idx_forms(shape):
+    if len(shape) == 0:
+        return [None]
     if len(shape) == 1:
         n = shape[0]
         forms = [None, 0, [-1, 0] if n > 1 else [0], slice(0, min(2, n))]
@@ -157,7 +160,7 @@ def _ops(refm, reduced=False):
             for vi in range(2):
                 for uo in unit_opts:
                     k += 1
-                    if reduced and not (vi == 0 and fi in (0, 1 if len(shape) == 1 else 2)):
+                    if reduced and not (vi == 0 and fi in (0, 1 if len(shape) <= 1 else 2)):
                         continue
                     if vi == 0:
                         # constant value with exactly the selected shape (scalar for a scalar slot)
@@ -212,7 +215,8 @@ def _observe(prob, refm, V, step):
         views = [(None, None)]
         if u in COMPAT:
             views.append((COMPAT[u], None))
-        views.append((None, _idx_forms(shape)[2]))
+        if len(shape):
+            views.append((None, _idx_forms(shape)[2]))
         for units, idx in views:
             want = refm.get(name, units, idx)
             kw = {}
